@@ -347,6 +347,9 @@ func Vars(d gen.DataSpec, p *Probes) jet.VarMap {
 		return reflect.ValueOf("")
 	})
 	vm.Set("nilfn", (func() string)(nil))
+	vm.Set("uhkey", struct{ ID interface{} }{[]int{1}})
+	vm.Set("mksend", func() chan<- int { return make(chan int, 1) })
+	vm.SetWriter("nilw", nil)
 	vm.Set("ifmap", map[interface{}]string{"k": "v"})
 	vm.Set("vsfn", func(xs ...string) int { return len(xs) })
 	vm.Set("nilemb", struct{ *gen.Meta }{})
